@@ -61,7 +61,27 @@ let run_c03 toks obs =
            | t :: _ -> Printf.sprintf "MISMATCH %s harness wait timed out: %s" id t)
     end)
 
+(* both ends are the package: the caller's cancellation must reach the handler *)
+let run_e2ec toks obs =
+  match toks with
+  | "e2ec" :: id :: rest ->
+      let k = parse_kv rest in
+      (match Hashtbl.find_opt obs id with
+       | None -> Printf.sprintf "MISMATCH %s no-observation" id
+       | Some ot ->
+           let okv = parse_kv (List.tl (List.tl ot)) in
+           if kv "panic" okv <> "" then Printf.sprintf "PROPFAIL %s sig=panic %s" id (kv "panic" okv)
+           else if kv "setup" okv <> "" then Printf.sprintf "MISMATCH %s could not set up a loopback pair" id
+           else if kv "ret" okv <> "ctx" then
+             Printf.sprintf "PROPFAIL %s sig=cancel-not-prompt:e2e-%s-%s the cancelled call returned %s after %s ms instead of its context's error" id (kv "when" k) (kv "how" k) (kv "ret" okv) (kv "retms" okv)
+           else if kv "hstarted" okv = "true" && kv "hctx" okv <> "1" then
+             Printf.sprintf "PROPFAIL %s sig=cancel-does-not-reach-handler:e2e-%s-%s the caller cancelled its call (frame %s), the handler ran and its context was not cancelled within 2.5 s" id (kv "when" k) (kv "how" k)
+               (if kv "when" k = "inflight" then "still being written" else "already written")
+           else Printf.sprintf "AGREE %s nontrivial" id)
+  | _ -> "SKIP"
+
 let run_c09 toks obs =
+  match toks with "e2ec" :: _ -> run_e2ec toks obs | _ ->
   with_trace toks obs (fun id k evs tr ->
     if not (c09_only_own tr) then Printf.sprintf "PROPFAIL %s sig=%s a handler's context was cancelled although its caller did not cancel it and the transport was not closing" id
         (if kv "family" k = "" then "foreign-cancel" else "foreign-cancel:" ^ kv "family" k)
